@@ -14,3 +14,13 @@ Fixpoint tlist_eqb (a b : list tkind) : bool :=
 (* value of the literal, -1 when the text is not exactly one accepted integer literal *)
 Definition lit_obs (text : list N) : Z :=
   match lex_int text with Some n => Z.of_N n | None => (-1)%Z end.
+
+(* value-block parser contract (hx_asi --mode blk) *)
+From Aelys Require Import Extracted.ParserSets Model.BlockParse.
+Definition bresult_eqb (a b : bresult) : bool :=
+  match a, b with
+  | Value i, Value j => Nat.eqb i j
+  | Null, Null => true
+  | ParseError, ParseError => true
+  | _, _ => false
+  end.
